@@ -58,4 +58,19 @@ InnerStrictlyInside == (s >= 0 /\ e <= n /\ s < a /\ b < e /\ b - a >= m) => (a 
 \* C02: the start t-m+1 PELT adds when the prefix end is t+1 >= 2m gives a segment of exactly m >= min_size
 \* samples, and never lies in 1..m-1 (k plays the role of t)
 PeltLatestStart == (k + 1 >= 2 * m) => ((k + 1) - (k - m + 1) = m /\ (k - m + 1 >= m))
+
+\* C14 (Config.SearchCount): the moving window's search range b..n-b holds n - 2b + 1 >= 1 splits exactly when the data
+\* reach the documented minimum length 2b (m plays the role of the bandwidth)
+WindowSearchCount == ((n >= 2 * m) <=> (n - 2 * m + 1 >= 1)) /\ ((n >= 2 * m) => (m <= n - m))
+
+\* C07 / C14: with n >= 2M and max_interval_length b >= 2M the longest seeded interval, of length min(b, n), fits the data
+\* and leaves M samples on both sides of some split
+SeededIntervalExists == (n >= 2 * m /\ b >= 2 * m) =>
+    LET len == IF b < n THEN b ELSE n IN len >= 2 * m /\ len <= n /\ (0 + m <= len - m)
+
+\* C15 (ScorerSizes.ParamSizeDef): the parameter count of the multivariate Gaussian cost, k + k(k+1)/2 for k columns, grows
+\* strictly with k and is at least 2k (non-linear: checked for all k >= 1 by the SMT solver)
+CovParamSizeGrows == (k >= 1) =>
+    /\ k + (k * (k + 1)) \div 2 < (k + 1) + ((k + 1) * (k + 2)) \div 2
+    /\ k + (k * (k + 1)) \div 2 >= 2 * k
 =============================================================================
